@@ -223,7 +223,18 @@ func (z *ZodLiteral[T, R]) Values() []T {
 
 // Contains reports whether v is one of the allowed literal values.
 func (z *ZodLiteral[T, R]) Contains(v T) bool {
-	return slices.Contains(z.internals.Def.Values, v)
+	return slices.ContainsFunc(z.internals.Def.Values, func(x T) bool { return literalEqual(x, v) })
+}
+
+// literalEqual compares two literal values. With T = any a value may hold a
+// slice or a map (a JSON Schema const such as [1] does); == panics on those, so
+// values that cannot be compared are compared structurally.
+func literalEqual[T comparable](a, b T) bool {
+	va, vb := reflect.ValueOf(any(a)), reflect.ValueOf(any(b))
+	if va.IsValid() && vb.IsValid() && (!va.Comparable() || !vb.Comparable()) {
+		return reflect.DeepEqual(any(a), any(b))
+	}
+	return a == b
 }
 
 // withInternals creates a new instance preserving the generic constraint type R.
